@@ -22,7 +22,7 @@ def plain(n, d):
 
 
 def arith(n, d):
-    """constants as constant sub-expressions: 2 -> (1 + 1), -2 -> (0 - 2), 0.5 -> (1 / 2)"""
+    """constants as constant sub-expressions: 2 -> (1 + 1), -2 -> (0 - 2), 0.5 -> (1 / 2), 0 -> (1 - 1), 1 -> (3 - 2)"""
     v = n / d
     if v == int(v):
         k = int(v)
@@ -30,7 +30,7 @@ def arith(n, d):
             return f"(0 - {-k})"
         if k >= 2:
             return f"({k - 1} + 1)"
-        return str(k)
+        return "(1 - 1)" if k == 0 else "(3 - 2)"
     if d in (2, 4) and abs(n) < 20:
         return f"({n} / {d})" if n > 0 else f"((0 - {-n}) / {d})"
     return plain(n, d)
